@@ -70,6 +70,29 @@ var c15Datasets = []c15Dataset{
 	},
 }
 
+// c15LargeDatasets is a ladder of cell sizes around powers of two (2^10 and
+// 2^12, one below, at, one above): two columns whose A cells hold that many
+// values in no particular order, next to a small row. Used by the free-running
+// passes only (the controlled pass explores the small datasets).
+func c15LargeDatasets() []c15Dataset {
+	var out []c15Dataset
+	for _, n := range []int{1023, 1024, 1025, 4097} {
+		var f0, f1 strings.Builder
+		for i := 0; i < n; i++ {
+			fmt.Fprintf(&f0, "BenchmarkA 1 %d ns/op\n", 1000+(i*7919)%1009)
+			fmt.Fprintf(&f1, "BenchmarkA 1 %d ns/op\n", 1010+(i*104729)%997)
+		}
+		f0.WriteString("BenchmarkB 1 5 ns/op\nBenchmarkB 1 7 ns/op\nBenchmarkB 1 6 ns/op\n")
+		f1.WriteString("BenchmarkB 1 6 ns/op\nBenchmarkB 1 9 ns/op\nBenchmarkB 1 8 ns/op\n")
+		out = append(out, c15Dataset{
+			Name:  fmt.Sprintf("cells-of-%d-values", n),
+			Files: []string{f0.String(), f1.String(), f1.String() + f0.String()},
+			Table: ".config", Row: ".fullname", Col: ".file",
+		})
+	}
+	return out
+}
+
 // c15Body builds everything afresh, adds the results, computes the tables and
 // renders them as text and CSV. It returns the three byte streams joined.
 func c15Body(ds c15Dataset) string {
